@@ -509,7 +509,8 @@ pub fn recover_units(p: &Program) -> Option<Vec<ExpUnit>> {
                         Contra::TooFewCols { row }
                         | Contra::TooManyCols { row, .. }
                         | Contra::NullIntoNotNull { row, .. }
-                        | Contra::WrongKind { row, .. } => *row as usize,
+                        | Contra::WrongKind { row, .. }
+                        | Contra::RefusedRetry { row, .. } => *row as usize,
                     };
                     out.push(ExpUnit::Rows {
                         cols: r.cols.clone(),
@@ -554,6 +555,21 @@ fn program_has_contra(p: &Program) -> bool {
             Some(Contra::NullIntoNotNull { row, col }) | Some(Contra::WrongKind { row, col, .. }) => {
                 (*row as usize) < r.rows.len() && (*col as usize) < r.cols.len()
             }
+            // a refused-and-retried value does not end anything
+            Some(Contra::RefusedRetry { .. }) => false,
+        },
+        _ => false,
+    })
+}
+
+/// the program offers a value that must be refused and then carries on
+pub fn program_has_retry(p: &Program) -> bool {
+    p.units.iter().any(|u| match u {
+        Unit::Rows(r) => match &r.contra {
+            Some(Contra::RefusedRetry { row, col, .. }) => {
+                !r.write_row && (*row as usize) < r.rows.len() && (*col as usize) < r.rows[*row as usize].len() && !r.cols.is_empty()
+            }
+            _ => false,
         },
         _ => false,
     })
@@ -865,6 +881,9 @@ fn apply_act(m: &mut CmdModel, act: &Act, acts: &mut Vec<Act>, default_on_init: 
                 m.probe = true;
             } else {
                 m.reply = Reply::Units(program_units(p));
+                // exactly the offered-and-refused value fails; everything else reports success
+                // and the reply is the one the program describes
+                m.expect_api_err = program_has_retry(p);
             }
         }
         Act::Init(a) if is_init => {
